@@ -4,6 +4,7 @@ import (
 	"context"
 	"net/http"
 	"net/url"
+	"time"
 )
 
 // ---- C07: a paused service holds requests and releases them intact (T2) ----
@@ -292,7 +293,9 @@ func HarnessPauseRace() {
 	}
 	vSortMode = 0
 	router := NewRouter("/state")
+	// every pause command carries its own max-pause: the one in force afterwards is that of the pause that took effect last
 	maxPause := vDur("max_pause")
+	maxPauseOf := map[string]time.Duration{"0": vDur("max_pause_cmd0"), "1": vDur("max_pause_cmd1")}
 	topts := TargetOptions{HealthCheckConfig: HealthCheckConfig{Path: "/up", Interval: 1 << 40, Timeout: 1000}}
 	svc, _ := vInstallOldService(router, topts)
 	root := vRootChain(router)
@@ -304,7 +307,7 @@ func HarnessPauseRace() {
 	command := func(which int, tag string) {
 		switch which {
 		case 0:
-			router.PauseService("svc", 0, maxPause)
+			router.PauseService("svc", 0, maxPauseOf[tag])
 		case 1:
 			router.ResumeService("svc")
 		case 2:
@@ -354,7 +357,20 @@ func HarnessPauseRace() {
 	switch final {
 	case PauseStatePaused:
 		vAssert(fwd < 0, "pause race: a request arriving while the service is paused is held, not forwarded")
-		vAssert(res.status == 504 && res.at == at+int64(maxPause), "pause race: a request held for max-pause is answered 504 at that instant")
+		// held for the max-pause of one of the pause commands that can have been the last to take effect (the initial
+		// pause's only if neither of the two commands was a pause)
+		held := res.at - at
+		okHold := false
+		if c1 == 0 && held == int64(maxPauseOf["0"]) {
+			okHold = true
+		}
+		if c2 == 0 && held == int64(maxPauseOf["1"]) {
+			okHold = true
+		}
+		if c1 != 0 && c2 != 0 && held == int64(maxPause) {
+			okHold = true
+		}
+		vAssert(res.status == 504 && okHold, "pause race: a request held for the max-pause of the latest pause is answered 504 at that instant")
 	case PauseStateStopped:
 		vAssert(fwd < 0 && res.status == 503 && res.body == "PAGE[builtin/503.html]" && len(vRenders) == 1, "pause race: a request to a stopped service is answered with the 503 page")
 		if len(vRenders) == 1 {
